@@ -11,7 +11,7 @@ from c11 import ALPHABET, hash_of_cell, split_bits, _ranges, cell_rect
 MODULE = 'GeoVerif.Props.C12'
 THEOREMS = ['GV.Flood.' + t for t in (
     'flood_eq_reach', 'flood_schedule_independent', 'flood_sound', 'flood_has_start',
-    'flood_complete_of_connected', 'flood_only_connected', 'flood_terminates', 'flood_total',
+    'flood_complete_of_connected', 'flood_only_connected', 'flood_closed', 'flood_terminates', 'flood_total',
     'multi_is_union', 'hashShape_multi', 'hashCollection_spec', 'hashCollection_len',
 )] + ['GV.Geohash.flood_terminates_geohash']
 
@@ -762,7 +762,7 @@ def gen_shape(rng, b, L, size):
     size = max(1, min(size, max_size(b, L)))
     lat = Lattice(rng, b, L, extent=2 * size + 2)
     q = lat.q
-    W, H = rng.randint(q, size * q), rng.randint(q, size * q)
+    W, H = rng.randint(max(q, size * q // 2), size * q), rng.randint(max(q, size * q // 2), size * q)
     r = rng.random()
     if r < 0.30:
         shell, holes, fam = gen_polygon(rng, lat, W, H)
@@ -898,13 +898,14 @@ def check(run):
     run.exhaustive = not run.quick
 
     # ---- random dyadic shapes, 4..400 cells -----------------------------------------------------------
-    n = run.scale(22, 300)
+    n = run.scale(30, 300)
     lines = []
     for b in (16, 32, 64):
         made = 0
         while made < n:
             L = rng.choice(LENGTHS[b])
-            size = rng.choice([2, 3, 4, 6, 8, 12, 16, 20])
+            sizes = [x for x in ([2, 3, 4, 6, 8, 12, 16] if run.quick else [2, 3, 4, 6, 8, 12, 16, 20]) if x <= max_size(b, L)]
+            size = rng.choice(sizes[-4:])
             kind, data, fam = gen_shape(rng, b, L, size)
             if emit(b, L, kind, data, fam, lines):
                 made += 1
